@@ -20,7 +20,16 @@ func (d Directive) BodyError(msg string) *jerr.JApiError {
 }
 
 func (d Directive) BodyErrorIndex(msg string, i uint) *jerr.JApiError {
-	return d.makeError(msg, d.BodyCoords.File(), d.BodyCoords.begin+bytes.Index(i))
+	if !d.BodyCoords.IsSet() {
+		return d.KeywordError(msg)
+	}
+	index := d.BodyCoords.begin + bytes.Index(i)
+	if index > d.BodyCoords.File().Content().LenIndex() {
+		// The index was not computed for this body: point to the beginning of
+		// the body instead of a place outside the file.
+		index = d.BodyCoords.begin
+	}
+	return d.makeError(msg, d.BodyCoords.File(), index)
 }
 
 func (d Directive) ParameterError(msg string) *jerr.JApiError {
